@@ -8,16 +8,19 @@ import sys
 
 HERE = os.path.dirname(os.path.dirname(os.path.abspath(__file__)))
 sys.path.insert(0, HERE)
-from pvf.core import alpha  # noqa
+from pvf.core import alpha, normal  # noqa
 
 out = {}
+nout = {}
 for f in sorted(glob.glob("/repo/paramiko/*.py")):
     mod = os.path.basename(f)[:-3]
     tree = ast.parse(open(f).read())
     for q, fn in alpha.functions_of(tree, mod):
+        nout[q] = normal.entry_for(fn)
         order = alpha.function_locals(fn)
         if not order:
             continue
         out[q] = {"hash": alpha.normal_hash(fn, order), "names": order}
 json.dump(out, open(alpha.TABLE, "w"), indent=0, sort_keys=True)
-print("functions with locals:", len(out))
+json.dump(nout, open(normal.TABLE, "w"), indent=0, sort_keys=True)
+print("functions with locals:", len(out), "functions:", len(nout))
